@@ -45,6 +45,21 @@ pub fn encodings(v: &RefVal) -> Vec<(String, Vec<u8>)> {
                 b.extend_from_slice(&body);
                 out.push((format!("L({})", lbl), b));
             }
+            // the same list written as a shorter LIST_EXT whose tail is the LIST_EXT (or STRING_EXT) of the rest: nothing an
+            // OTP node emits, but a form the decoder accepts (children in their default encoding)
+            if e.len() >= 2 && e.len() <= 6 {
+                for k in 1..e.len() {
+                    let mut b = vec![108];
+                    b.extend_from_slice(&(k as u32).to_be_bytes());
+                    for x in &e[..k] { b.extend_from_slice(&encodings(x)[0].1); }
+                    let rest = RefVal::List(e[k..].to_vec(), t.clone());
+                    for (rl, rb) in encodings(&rest).into_iter().filter(|(l, _)| l == "STRING_EXT" || l.chars().all(|c| "L(d,)".contains(c))) {
+                        let mut b2 = b.clone();
+                        b2.extend_from_slice(&rb);
+                        out.push((format!("L-split@{}[{}]", k, rl), b2));
+                    }
+                }
+            }
             if **t == RefVal::Nil && e.len() <= 65535 {
                 let bytes: Option<Vec<u8>> = e.iter().map(|x| if let RefVal::Int(i) = x { i.to_i64().filter(|v| (0..=255).contains(v)).map(|v| v as u8) } else { None }).collect();
                 if let Some(bs) = bytes {
@@ -268,6 +283,15 @@ fn check_encoding(cx: &Cx, v: &RefVal, label: &str, bytes: &[u8], family: &str) 
             if tags[0] && rep.known("C03-latin1-atom") { return; }
             rep.violation("decoder rejects a valid encoding", json!({"family": family, "value": v.short(), "alternatives": label, "error": e.to_string(), "bytes": hex(bytes)}));
             return;
+        }
+    }
+    // the integer accessor of a decoded integer: the value when it fits 64 bits, nothing otherwise
+    if let RefVal::Int(i) = v {
+        if let Ok(t) = erltf::decode(bytes) {
+            let acc = t.as_integer();
+            if acc != i.to_i64() {
+                rep.violation("as_integer() of a decoded integer differs from its value", json!({"family": family, "value": v.short(), "alternatives": label, "as_integer": acc.map(|x| x.to_string()), "bytes": hex(bytes)}));
+            }
         }
     }
     // the other owned entry points accept the same encodings with the same result
